@@ -238,6 +238,24 @@ def smt_custom(oid, function, clause, body, kind='required', budget=120, tiers=(
   return Obligation(oid, function, clause, run, backend=backend, kind=kind, budget=budget, tiers=tiers, assumes=tuple(assumes))
 
 
+def by_name(fn, names):
+  """private helpers are called by parameter NAME (their argument order is not part of any contract): returns a function taking the arguments in the order of `names`
+  and forwarding them as keywords when fn has exactly those parameters, positionally otherwise"""
+  import inspect
+  try:
+    params = set(inspect.signature(fn).parameters)
+  except (TypeError, ValueError):
+    params = set()
+  if set(names) <= params:
+    def call(*args):
+      return fn(**dict(zip(names, args)))
+  else:
+    def call(*args):
+      return fn(*args)
+  call.__name__ = getattr(fn, '__name__', 'fn')
+  return call
+
+
 def side_conditions(A):
   """definedness side conditions collected by the SMT algebra as one list of formulas"""
   return [c for _, c in A.side]
